@@ -157,6 +157,16 @@ CHECKS = {
         "Compile-time inspection only (sql_with_params / compile); strings carry a unique marker so that escaping cannot hide them.",
         "DESIGN.md §6 C08",
     ),
+    "C07": (
+        "Hypothesis generation of templates x (benign, adversarial) hole contents x three dialects x alias + exhaustive (function, argument) x payload table; metamorphic non-interference under an independent SQL lexer, sqlite3 prepare as second opinion",
+        "String literals and field names of generated SQL-fragment filters are holes; a benign and an adversarial "
+        "instantiation (metacharacter-biased text, 40 injection payloads, Unicode identifiers) are translated by each "
+        "dialect and both outputs are tokenised by the harness's own SQL-92 lexer: token sequences must be equal up "
+        "to literal/identifier placeholders, every hole marker sits in exactly one string token, every quoted "
+        "identifier is an expected field or the alias, and no comment or semicolon appears outside literals.",
+        "SQL-92 lexical rules are assumed for all three dialects; a LIKE pattern with its ESCAPE clause counts as one literal; only SQLite text is handed to a real engine (prepare).",
+        "DESIGN.md §6 C07",
+    ),
 }
 
 ALL = ["C%02d" % i for i in range(1, 21)]
